@@ -27,6 +27,11 @@ type c15In struct {
 	// MoreKDF: further AT_KDF attributes of a ref-built packet (RFC 5448 3.2: a Challenge lists several KDF offers, one
 	// AT_KDF each, in preference order), appended to EAP.Attrs before Order is applied
 	MoreKDF []model.Bytes `json:"more_kdf,omitempty"`
+	// ResBitsLess (ref-built, 0..7): the RES length field says this many bits less than the octets carry (RFC 4187 10.8: the
+	// length of RES is counted in bits; it need not be a multiple of 8)
+	ResBitsLess int `json:"res_bits_less,omitempty"`
+	// LockStep (ref-built): a second, different packet is decoded and its code computed between two computations on this one
+	LockStep bool `json:"two_packets_in_lock_step,omitempty"`
 	// Generic: further attributes of a ref-built packet whose types the library has no special case for (value = the 4L-2 octets
 	// behind the length octet); several large ones make the packet exceed one 4096-octet buffer fill of a buffered reader
 	Generic []model.AkaAttr `json:"generic_attributes,omitempty"`
@@ -197,6 +202,13 @@ func c15Oracle(in c15In) probe.Outcome {
 		if w, err = ref.EncodeEAPGeneric(e, order); err != nil {
 			return probe.Fail("HARNESS: reference EAP encoder: %v", err)
 		}
+		if in.ResBitsLess > 0 {
+			if roff, rn, ok := ref.AkaAttrSpan(w, model.AT_RES); ok && rn >= 4 {
+				bits := rn*8 - in.ResBitsLess
+				w[roff-2], w[roff-1] = byte(bits>>8), byte(bits)
+				labels = append(labels, "res-bit-length-not-a-multiple-of-8")
+			}
+		}
 		if mac, err = refMAC(in.Key, w); err != nil {
 			return probe.Fail("HARNESS: %v", err)
 		}
@@ -222,6 +234,38 @@ func c15Oracle(in c15In) probe.Outcome {
 	}
 	if !bytes.Equal(computed, mac) {
 		return probe.Fail("receiver computes %x for a genuine packet carrying %x (ref-built=%v)\n packet %x", computed, mac, in.RefBuilt, w)
+	}
+	// two received packets handled in lock step (two sessions, or a retransmission next to its original): computing the code of
+	// one does not disturb the other
+	if in.LockStep {
+		w2 := append([]byte(nil), w...)
+		w2[1]++       // another identifier,
+		w2[5] ^= 0x21 // another subtype: another packet, of the same size
+		mac2, err := refMAC(in.Key, w2)
+		if err != nil {
+			return probe.Fail("HARNESS: %v", err)
+		}
+		off2, _, _ := ref.AkaAttrSpan(w2, model.AT_MAC)
+		copy(w2[off2:], mac2)
+		a, b := new(eap.EAP), new(eap.EAP)
+		if err := probe.Try(func() error {
+			if e := a.Unmarshal(probe.Exact(w)); e != nil {
+				return e
+			}
+			return b.Unmarshal(probe.Exact(w2))
+		}); err != nil {
+			return probe.Fail("receiver: %v", err)
+		}
+		for round, x := range []struct {
+			p    *eap.EAP
+			want []byte
+		}{{a, mac}, {b, mac2}, {a, mac}, {b, mac2}, {a, mac}} {
+			got, err := libCalc(x.p, in.Key)
+			if err != nil || !bytes.Equal(got, x.want) {
+				return probe.Fail("two decoded packets handled in lock step: computation %d gives %x, the packet carries %x (%v)", round+1, got, x.want, err)
+			}
+		}
+		labels = append(labels, "lock-step")
 	}
 	// a receiver that changes the decoded packet (e.g. to build its answer) gets the MAC of the packet as it is then
 	for variant := 0; variant < 2; variant++ {
@@ -361,6 +405,10 @@ func c15Gen(t *rapid.T) c15In {
 				in.Generic = append(in.Generic, model.AkaAttr{Type: ty, Value: gen.Fill(t, "gvalue", 4*words-2)})
 				n++
 			}
+		}
+		in.LockStep = rapid.IntRange(0, 2).Draw(t, "lockstep") == 2
+		if rapid.IntRange(0, 3).Draw(t, "resbits") == 3 {
+			in.ResBitsLess = rapid.IntRange(1, 7).Draw(t, "resbitsless")
 		}
 		if rapid.IntRange(0, 3).Draw(t, "more-kdf") == 3 {
 			for i := rapid.IntRange(1, 3).Draw(t, "nkdf"); i > 0; i-- {
